@@ -1,2 +1,3 @@
 import OidcModel.Proofs.C01
 import OidcModel.Proofs.C02
+import OidcModel.Proofs.C12
